@@ -177,7 +177,7 @@ class Model:
         # lower layer that has data (ROM image, RAM fill)
         regs: List[Tuple[int, int, str, str, Tuple]] = []
         if self.emu:
-            regs.append((0x2000, 0x200F, "lcd", "dev", ("unknown",)))
+            regs.append((0x2000, 0x2FFF, "lcd", "dev", ("unknown",)))
             regs.append((0xA000, 0xAFFF, "lcd", "dev", ("unknown",)))
         if self.cpu:
             regs.append((0x2000, 0x2FFF, "lcd", "dev", ("unknown",)))
